@@ -87,6 +87,9 @@ const (
 	aNonNil
 	aTrue
 	aFalse
+	aMsgInit // interface parameter known to hold Initialized / Started / Stopped
+	aMsgStart
+	aMsgStop
 )
 
 type LTA struct {
@@ -509,7 +512,7 @@ func (a *LTA) analyze(fn *ssa.Function, args map[int]labs, st LSt, deferredPanic
 					name, n := fieldName(fa)
 					switch {
 					case sameNamed(n, a.ctxT) && name == "message":
-						st.Msg = a.msgKind(ins.Val)
+						st.Msg = a.msgKindIn(fr, ins.Val)
 					case sameNamed(n, a.ctxT) && name == "receiver":
 						if st.Inc != incNone && st.Inc != incStopped {
 							report("incarnation-replaced-without-Stopped", "new-receiver", st, ins.Pos())
@@ -668,11 +671,34 @@ func (a *LTA) absArgs(fr *lframe, com *ssa.CallCommon) map[int]labs {
 	for ai, av := range com.Args {
 		if c, ok := av.(*ssa.Const); ok && c.IsNil() {
 			args[ai] = aNil
-		} else if v, ok := fr.env[av]; ok && (v == aNil || v == aNonNil) {
+		} else if v, ok := fr.env[av]; ok && (v == aNil || v == aNonNil || v >= aMsgInit) {
 			args[ai] = v
+		} else if _, isIface := av.Type().Underlying().(*types.Interface); isIface {
+			// a lifecycle message handed to a helper (p.deliver(Stopped{})) keeps its kind
+			switch a.msgKind(av) {
+			case mInit:
+				args[ai] = aMsgInit
+			case mStart:
+				args[ai] = aMsgStart
+			case mStop:
+				args[ai] = aMsgStop
+			}
 		}
 	}
 	return args
+}
+
+// msgKindIn: like msgKind, but a parameter carries the kind it was called with.
+func (a *LTA) msgKindIn(fr *lframe, v ssa.Value) uint8 {
+	switch fr.env[v] {
+	case aMsgInit:
+		return mInit
+	case aMsgStart:
+		return mStart
+	case aMsgStop:
+		return mStop
+	}
+	return a.msgKind(v)
 }
 
 func isCancelFunc(t types.Type) bool {
